@@ -547,6 +547,22 @@ func ruleContextFirst(c *Ctx, rule string) {
 		icaFns := injectorHelpers(ica, 2)
 		stores := storesToField(icaFns, "internal/kessoku.Injector.Args")
 		isPrepend := func(st *ssa.Store) (bool, string) {
+			// slices.Insert(injector.Args, 0, one element)
+			if call, ok := st.Val.(*ssa.Call); ok {
+				if cal := call.Common().StaticCallee(); cal != nil && len(call.Common().Args) == 3 {
+					if o := originOf(cal); o.Pkg != nil && o.Pkg.Pkg.Path() == "slices" && o.Name() == "Insert" {
+						args := call.Common().Args
+						k, isC := constInt(args[1])
+						elems, okE := variadicElems(resolve(args[2]))
+						ld, isL := resolve(args[0]).(*ssa.UnOp)
+						if isC && k == 0 && okE && len(elems) == 1 && isL && ld.Op == token.MUL {
+							if fa, isF := ld.X.(*ssa.FieldAddr); isF && fieldKey(fa) == "internal/kessoku.Injector.Args" {
+								return true, "slices.Insert(injector.Args, 0, " + describe(elems[0]) + ")"
+							}
+						}
+					}
+				}
+			}
 			s := newSym(L, map[string]bool{})
 			s.maxD = 0
 			ts := s.eval(st.Val)
